@@ -552,8 +552,8 @@ func genViews(r *vgen.Rand, insts []InstSpec) []ViewSpec {
 		target := insts[r.Intn(len(insts))]
 		v := ViewSpec{CName: target.Name}
 		switch r.Intn(12) {
-		case 0:
-			v.CName = vgen.Pick(r, []string{"*", "r*", "?eq", "*e*", "a?", "ab*", "l?t", "R*"})
+		case 0, 5:
+			v.CName = vgen.Pick(r, []string{"*", "r*", "?eq", "*e*", "a?", "ab*", "l?t", "R*", "??", "a*c", "?e?", "*q"})
 		case 1:
 			v.CName = ""
 			v.CKind = target.Kind
@@ -865,14 +865,16 @@ func main() {
 		return
 	}
 	o := vgen.ParseFlags()
-	r := vgen.NewRand(o.Seed)
+	// vgen.NewRand(seed) and vgen.NewRand(seed+1) produce the same stream shifted by one draw; fork once so that
+	// different seeds give unrelated scenario sets.
+	r := vgen.NewRand(o.Seed).Fork()
 	w := vgen.NewWriter(o.Out, "C12.Defs C12.Model C12.Spec C12.Corr", "case", 96)
 	w.Rule = "scenarios = (cardinality limit via OTEL_GO_X_CARDINALITY_LIMIT in a child process, temporality selector, views, instruments, history of measurements over 1-30 attribute sets and 1-6 collections); " +
 		"observed: points per metric per ManualReader.Collect, sorted by attribute set; a case is non-trivial when the limit redirected a measurement to the overflow set, " +
 		"a filter merged distinct sets, more than one view matched an instrument, or a view dropped/renamed/re-aggregated a stream; distinct = distinct Coq case terms"
 
 	scs := corpus()
-	nGen := o.Count(520, 9000)
+	nGen := o.Count(900, 8000)
 	for i := 0; i < nGen; i++ {
 		scs = append(scs, genScenario(r.Fork(), o.Tier == "thorough"))
 	}
